@@ -9,10 +9,11 @@
    id exactly once, other IEs at most once, values within wire widths (bit rates < 2^40, volumes < 2^64, triggers 2-3 octets),
    Create URR with PERIO has a Measurement Period, no malformed child.
 
-   TWO parts of the property are false for go-upf as it is; each is stated at full strength, refuted with a witness, and the
-   theorem is proved under the hypothesis excluding exactly the failing inputs (names ending in _partial):
-     * BAR Downlink Data Notification Delay   (C03_bar_delay_refuted; wf_bar_nodelay = wf_bar + "delay = 0")
+   ONE part of the property is false for go-upf as it is; it is stated at full strength, refuted with a witness, and the theorem is
+   proved under the hypothesis excluding exactly the failing inputs (name ending in _partial):
      * periodic registration after Update URR (C03_perio_update_refuted; C03_perio_create_partial covers Create/Remove)
+   The BAR Downlink Data Notification Delay was a second one (Duration cast to uint8) until go-upf 08f4372 repaired it; the model
+   follows the repaired clause, C03_bar holds without exclusion, the old behaviour is kept as C03_bar_delay_legacy_refuted.
    Not in the property's list, decoded leniently, said in RulesSpec3.v: URR_MEASUREMENT_PERIOD, width of URR_MEASUREMENT_INFO. *)
 From Coq Require Import List NArith Bool Permutation.
 From GoUpf Require Import Bytes Nlattr PfcpIe3 RulesGen RulesSpec RulesSpec3 RulesPdrFar RulesQerUrrBar RulesQerUrrBarProofs.
@@ -54,27 +55,20 @@ Theorem C03_update_urr : forall link seid ies,
 Proof. exact update_urr_roundtrip. Qed.
 Print Assumptions C03_update_urr.
 
-(* --- BAR: full-strength statement = the same with wf_bar; FALSE (next theorem); proved for delay 0 / absent --- *)
-Theorem C03_bar_partial : forall create link seid ies,
-  link < 4294967296 -> seid < 18446744073709551616 -> wf_bar_nodelay ies = true ->
+(* --- BAR: delay (the IE's count of 50 ms units) and suggested packet count --- *)
+Theorem C03_bar : forall create link seid ies,
+  link < 4294967296 -> seid < 18446744073709551616 -> wf_bar ies = true ->
   exists id attrs,
     bar_op create link seid ies = Ok (nl_CMD_ADD_BAR, op_flags create, (seid, id), attrs) /\
     ref_decode_req nl_CMD_ADD_BAR ref_decode_bar nl_CMD_ADD_BAR (op_flags create) attrs = Some (create, spec_bar link seid ies).
-Proof. exact bar_roundtrip_partial. Qed.
-Print Assumptions C03_bar_partial.
+Proof. exact bar_roundtrip. Qed.
+Print Assumptions C03_bar.
 
-(* finding: Create BAR {BAR ID 1, Downlink Data Notification Delay 3 (150 ms)} reaches gtp5g with delay 128 *)
-Theorem C03_bar_delay_refuted :
-  exists link seid ies,
-    link < 4294967296 /\ seid < 18446744073709551616 /\ wf_bar ies = true /\
-    decoded3 nl_CMD_ADD_BAR ref_decode_bar (create_bar link seid ies) <> Some (spec_bar link seid ies).
-Proof. exact bar_delay_refuted. Qed.
-Print Assumptions C03_bar_delay_refuted.
-
-(* what arrives instead, for every IE value n (units of 50 ms): 0 when n is even, 128 when n is odd *)
-Theorem C03_bar_delay_low_octet : forall n, (n * 50000000) mod 256 = if N.even n then 0 else 128.
-Proof. exact bar_delay_low_octet. Qed.
-Print Assumptions C03_bar_delay_low_octet.
+(* before 08f4372: delay 3 (150 ms) reached gtp5g as 128; the repaired clause hands over 3 *)
+Example C03_bar_delay_legacy_refuted :
+  option_map b_delay (ofold dec_bar_step [bar_delay_legacy_attr (3 * 50000000)] bar0) = Some (Some 128) /\
+  option_map b_delay (ofold dec_bar_step (bar_out (QDelay (3 * 50000000))) bar0) = Some (Some 3).
+Proof. exact bar_delay_legacy_refuted. Qed.
 
 (* --- periodic registration --- *)
 (* Create URR: a tick of period p asks for the URR iff PERIO is among its triggers and p is its measurement period *)
@@ -127,12 +121,12 @@ Theorem C03_update_urr_order_free : forall link seid ies ies',
 Proof. exact update_urr_order_free. Qed.
 Print Assumptions C03_update_urr_order_free.
 
-Theorem C03_bar_order_free_partial : forall create link seid ies ies',
-  link < 4294967296 -> seid < 18446744073709551616 -> wf_bar_nodelay ies = true -> Permutation ies ies' ->
+Theorem C03_bar_order_free : forall create link seid ies ies',
+  link < 4294967296 -> seid < 18446744073709551616 -> wf_bar ies = true -> Permutation ies ies' ->
   exists d, decoded3 nl_CMD_ADD_BAR ref_decode_bar (bar_op create link seid ies) = Some d /\
             decoded3 nl_CMD_ADD_BAR ref_decode_bar (bar_op create link seid ies') = Some d.
-Proof. exact bar_order_free_partial. Qed.
-Print Assumptions C03_bar_order_free_partial.
+Proof. exact bar_order_free. Qed.
+Print Assumptions C03_bar_order_free.
 
 (* --- the boolean monitors applied to the implementation's requests accept everything the model emits --- *)
 Theorem C03_monitor_accepts_model_qer : forall create link seid ies,
@@ -155,14 +149,14 @@ Theorem C03_monitor_accepts_model_urr : forall link seid ies,
 Proof. exact monitor_accepts_urr. Qed.
 Print Assumptions C03_monitor_accepts_model_urr.
 
-Theorem C03_monitor_accepts_model_bar_partial : forall create link seid ies,
-  link < 4294967296 -> seid < 18446744073709551616 -> wf_bar_nodelay ies = true ->
+Theorem C03_monitor_accepts_model_bar : forall create link seid ies,
+  link < 4294967296 -> seid < 18446744073709551616 -> wf_bar ies = true ->
   match bar_op create link seid ies with
   | Ok (cmd, fl, _, attrs) => bar_req_ok create link seid ies cmd fl attrs = true
   | Err => False
   end.
-Proof. exact monitor_accepts_bar_partial. Qed.
-Print Assumptions C03_monitor_accepts_model_bar_partial.
+Proof. exact monitor_accepts_bar. Qed.
+Print Assumptions C03_monitor_accepts_model_bar.
 
 (* --- non-vacuity --- *)
 Example C03_nonvacuous_qer :
@@ -180,4 +174,10 @@ Example C03_nonvacuous_urr :
        [A nl_LINK (V32 7); A nl_URR_ID (V32 7); A nl_URR_SEID (V64 9);
         A nl_URR_VOLUME_THRESHOLD (VNest [A 1 (V8 5); A 2 (V64 18446744073709551615); A 4 (V64 2)]);
         A nl_URR_REPORTING_TRIGGER (V32 259); A nl_URR_MEASUREMENT_PERIOD (V32 3600000000000); A nl_URR_MEASUREMENT_METHOD (V8 2)])).
+Proof. split; vm_compute; reflexivity. Qed.
+
+Example C03_nonvacuous_bar :
+  wf_bar [QCount 200; QDelay 12750000000; QBarId 255] = true /\
+  decoded3 nl_CMD_ADD_BAR ref_decode_bar (update_bar 7 9223372036854775808 [QCount 200; QDelay 12750000000; QBarId 255]) =
+  Some {| b_link := Some 7; b_id := Some 255; b_seid := Some 9223372036854775808; b_delay := Some 255; b_count := Some 200 |}.
 Proof. split; vm_compute; reflexivity. Qed.
